@@ -72,4 +72,38 @@ theorem C20_fan_conc_is_sequential_run (add : α → α → α) (ps : List (Pres
       c.store = run add ps init rs :=
   run_linearizes_ops (requestCall add ps) (step add ps) (fun _ _ _ => rfl) init now progs sched
 
+/-- **preset, index and percentage stay mutually consistent under every interleaving**: any number of
+threads, any programs of `UpdateFanSpeed` requests none of which clears the preset of a fan that has one
+(`WriteOK` on every consistent fan speed — e.g. every masked write that leaves the preset alone or names one),
+any schedule: the stored fan speed is consistent at every point, and so is every fan speed a call returned.
+A relative step is computed inside the transaction from the value the commit lands on, so no interleaving
+yields an index / preset / percentage triple that no sequential run has. -/
+theorem C20_fan_conc_consistent (add : α → α → α) (ps : List (Preset α)) (hwf : WF ps) (init : Fan α)
+    (h0 : Consistent ps init) (now : Int) (progs : List (List (Request α)))
+    (hok : ∀ p ∈ progs, ∀ r ∈ p, ∀ s, Consistent ps s → WriteOK add s r) (sched : List Ev) :
+    let c := Cfg.run ⟨init, now, (progs.map (·.map (requestCall add ps))).map Thread.ofCalls⟩ sched
+    Consistent ps c.store ∧ ∀ th ∈ c.threads, ∀ v, Res.ok v ∈ th.results → Consistent ps v := by
+  intro c
+  have hm : Mono (fun (s : Fan α) (_ : Int) => Consistent ps s) := fun _ _ _ _ h => h
+  have hg := run_inv hm sched _ (init_inv (fun (s : Fan α) (_ : Int) => Consistent ps s) init now
+    (progs.map (·.map (requestCall add ps))) h0 (fun cs hcs cl hcl => by
+      obtain ⟨p, hp, rfl⟩ := List.mem_map.mp hcs
+      obtain ⟨r, hr, rfl⟩ := List.mem_map.mp hcl
+      refine ⟨fun _ o t ho hck => ?_, fun he => by simp [requestCall] at he⟩
+      show Consistent ps (step add ps o r)
+      unfold step
+      cases hu : update add ps o r with
+      | ok v => exact consistent_step add ps o v r hwf ho (hok p hp r hr o ho) hu
+      | invalidArgument => exact ho
+      | panic => exact ho))
+  exact ⟨hg.store, fun th hth v hv => by
+    obtain ⟨_, h⟩ := (hg.threads th hth).results _ hv
+    exact h⟩
+
+/-- the hypothesis is satisfiable: a relative index step under its own mask leaves the preset to
+`DeriveValues` on every fan speed -/
+example : ∀ s : Fan Rat, WriteOK radd s ⟨⟨0, "", 1, 0⟩, true, some [.index]⟩ := by
+  intro s h
+  simp [merged, merge] at h
+
 end ScVerif.C20.FanSpeed
